@@ -29,6 +29,7 @@ type SimSpec struct {
 	Classes []string
 	Invs    []string
 	ExtraConst string
+	ExtraDefs  string // extra definitions for the generated wrapper module
 }
 
 func (s SimSpec) extra() string {
@@ -349,10 +350,17 @@ func (c *BehavCheck) Run() int {
 			}
 			wcfg := exec.Config{Cache: rf.Config.Cache, Flush: rf.Config.Flush, Sync: rf.Config.Sync, Backend: rf.Config.Backend, IVCall: rf.Config.IVCall,
 				Compress: rf.Config.Compress, Pal: palette.New(rf.Config.Palette, rf.Config.K, rf.Config.PalSeed)}
+			if c.Configure != nil {
+				c.Configure(rand.New(rand.NewSource(1)), &wcfg)
+				wcfg.Flush, wcfg.Cache = rf.Config.Flush, rf.Config.Cache // what the finding needs
+			}
 			out, st := c.runOne(wb, wcfg, rf.Config.ExecSeed)
 			witnesses++
 			f, listed := known[rf.Finding]
-			if listed && f.Status == "known" && st.Known[rf.Finding] > 0 && out.Violation == nil && !out.Hang && out.Panic == "" {
+			viaClassify := out.Violation != nil && c.Classify != nil && c.Classify(out.Violation, wb, wcfg) == rf.Finding
+			if listed && f.Status == "known" && viaClassify {
+				knownSeen[rf.Finding] = fmt.Sprintf("%s (witness %s: %s)", f.Signature, filepath.Base(wf), truncate(out.Violation.Error(), 300))
+			} else if listed && f.Status == "known" && st.Known[rf.Finding] > 0 && out.Violation == nil && !out.Hang && out.Panic == "" {
 				knownSeen[rf.Finding] = fmt.Sprintf("%s (witness %s: %s)", f.Signature, filepath.Base(wf), truncate(st.KnownEx[rf.Finding], 300))
 			} else if out.Violation != nil {
 				fmt.Printf("  witness %s of finding %s: %s\n", wf, rf.Finding, out.Violation.Error())
@@ -469,6 +477,9 @@ func (c *BehavCheck) Run() int {
 // all workers draw the same sequence of action classes) and parses the behaviours they print.
 func GenerateBehaviours(sim SimSpec, seed int64) ([]*model.Behaviour, int64, error) {
 	modName, modText := genModule(sim.Module, sim.Classes)
+	if sim.ExtraDefs != "" {
+		modText = strings.Replace(modText, "====", sim.ExtraDefs+"\n====", 1)
+	}
 	procs := sim.Workers
 	if procs <= 0 {
 		procs = 8
